@@ -268,6 +268,7 @@ class _ReadSourceGenerator:
 
         size = 0
         slice_index = 0
+        uses_data = False
         for field, count, _ in info:
             if field is None:
                 # Padding
@@ -287,11 +288,13 @@ class _ReadSourceGenerator:
                 else:
                     getter = f"data[{slice_index}:{slice_index + count}]"
                     slice_index += count
+                    uses_data = True
             elif issubclass(read_type, (Char, Wchar, Int)):
                 getter = f"buf[{size}:{size + read_type.size}]"
             else:
                 getter = f"data[{slice_index}]"
                 slice_index += 1
+                uses_data = True
 
             if issubclass(read_type, (Wchar, Int)):
                 # Types that parse bytes further down to their own type
@@ -332,7 +335,7 @@ class _ReadSourceGenerator:
             size += field_type.size
 
         fmt = _optimize_struct_fmt(info)
-        if slice_index == 0 and (fmt == "x" or (len(fmt) == 2 and fmt[1] == "x")):
+        if not uses_data and (fmt == "x" or (len(fmt) == 2 and fmt[1] == "x")):
             # Only padding/byte-sliced members: nothing is taken from the unpacked tuple
             unpack = ""
         else:
